@@ -60,11 +60,13 @@ type builder struct {
 	assignsEmitted int
 	varAssigned    map[int]bool
 	knownFolds     int
+	typeArgs       map[types.Object]ast.Expr // type parameter of the (generic) helper -> type argument syntax at this call
 }
 
 // newBuilder matches arguments with parameters and decides, per parameter, between substitution and binding.
 func (c *inlCtx) newBuilder(call *ast.CallExpr, f *Func) *builder {
 	b := &builder{c: c, call: call, f: f}
+	b.typeArgs = c.typeArgsOf(call, f)
 	sig := f.Sig()
 	info := c.info
 	if sig.Recv() != nil {
@@ -493,6 +495,12 @@ func (b *builder) cloneBody() *ast.BlockStmt {
 		}
 		if o == nil {
 			return e
+		}
+		// a type parameter of a generic helper: the type argument of this call
+		if tn, isTN := o.(*types.TypeName); isTN && b.typeArgs != nil {
+			if te, ok := b.typeArgs[tn]; ok {
+				return cloneAST(te, map[ast.Node]ast.Node{}).(ast.Expr)
+			}
 		}
 		if arg, ok := b.subst[o]; ok && c.useOf(id) != nil {
 			cl := cloneAST(arg, c.n.back).(ast.Expr)
